@@ -150,7 +150,7 @@ func patterns(maxSeg int) []string {
 		}
 	}
 	rec("", maxSeg)
-	out = append(out, "//a", "/a/", "/a//b", "/:x/", "//", "/a/*/b")
+	out = append(out, "//a", "/a/", "/a//b", "/:x/", "//") // (a '*' that is not the last segment is not defined by the statement)
 	// registrations that are rejected after part of the pattern has been walked
 	out = append(out, "/a/:x/:x", "/:x/b/:x", "/a/:", "/:")
 	// literal segments that merely begin like a parameter or the wildcard
@@ -205,12 +205,12 @@ type obs struct {
 }
 
 type bench struct {
-	specs    []routeSpec
-	handlers []httpd.HandlerFunc
-	noRoute  httpd.HandlerFunc
-	cur      *obs
+	specs     []routeSpec
+	handlers  []httpd.HandlerFunc
+	noRoute   httpd.HandlerFunc
+	cur       *obs
 	panicNext bool // the next handler invoked panics instead of observing
-	names    []string
+	names     []string
 }
 
 func newBench(specs []routeSpec) *bench {
@@ -346,7 +346,7 @@ func (b *bench) checkTable(table []int, paths []string, st *stats) {
 				b.panicNext = true
 				o := b.serve(mux, pp, b.specs[registered[0]].method)
 				b.panicNext = false
-				if o.paniced != nil && o.paniced != handlerPanic {
+				if o.paniced != nil && !strings.Contains(fmt.Sprint(o.paniced), handlerPanic) { // the handler's own panic, possibly wrapped on its way out
 					st.Viols = append(st.Viols, vcommon.Violation{Scenario: "dispatch", Fingerprint: fmt.Sprintf("%s|panicking-handler|%q", desc, pp),
 						Message: fmt.Sprintf("C04: table %s, request %q whose handler panics: ServeHTTP panicked on its own account: %v", desc, pp, o.paniced), Witness: map[string]any{"table": desc, "path": pp}})
 					return
